@@ -11,7 +11,7 @@ CHECKS = {
    text="Every policy of scope S1 (1-3 groups x all subsets of 3 names incl. empty x 4 actions x 3 defaults, on the 4 architectures with tables), the raw-action scope and whole-table sweeps (first-k names for every k, two/three-group splits at every cut point) is compiled by the real Policy.Assemble and executed by an independent interpreter on one representative of every class of the exact event partition (covers all 2^32 nr values and all arch/argument words up to indistinguishability); thorough adds literal 2^32 nr sweeps. Exhaustive within the stated scope; says nothing about >3 groups combined with arbitrary name sets beyond the sweeps.",
    note="Trusted: refsem.Decide (written from the statement), vendored kernel/Go syscall tables, the partition argument of DESIGN 2.4, bpf.Assemble's raw encoding as the thing LoadFilter installs.", ref="DESIGN.md C01, 2.3-2.5"),
  "C02": dict(cat="exploration", tech="exhaustive enumeration of op x arg x operand alphabet x partition cells x byte order, interpreter vs uint64 relation",
-   text="All 8 operations x 6 argument slots x a 45-value operand alphabet placed on every 32-bit boundary x every cell of the actual argument's two words (and of any other word the program reads), under both byte orders via the byte-order hook; plus all literal operand/actual pairs and all operation pairs on one argument. A lowering or word-selection error changes a decision in some cell.",
+   text="All 8 operations x 6 argument slots x a 45-value operand alphabet placed on every 32-bit boundary, on all four architectures, x every cell of the actual argument's two words (and of any other word the program reads), under both byte orders via the byte-order hook; plus all literal operand/actual pairs and all operation pairs on one argument. A lowering or word-selection error changes a decision in some cell.",
    note="Trusted: Go uint64 arithmetic; VerifSetByteOrder only swaps the package variable. Operands outside the alphabet are covered only up to the partition argument (constants enter the program verbatim).", ref="DESIGN.md C02"),
  "C03": dict(cat="exploration", tech="bounded-exhaustive enumeration of conditional policies (colliding operands) + exact event partition vs reference",
    text="All policies of scope S3: entry sequences (<=3 entries; unconditional or 1-2 conditions; 8 ops; operands equal to other entries' syscall numbers; repeated names/arguments; one or two groups split at every point) with <=2 (quick) / <=3-4 (thorough) conditions, plus multi-list entries; each run on the full product of partition cells of nr, arch and all argument words, so every fall-through path (no list matched -> later entry / later group / default) is executed.",
@@ -23,34 +23,34 @@ CHECKS = {
    text="Scopes S1, S3 (<=2 entries/conditions) and the long-program scope are run on the exact partition extended by every AUDIT_ARCH constant of linux/audit.h, 0, own+-1, own with bit 30/31 flipped, 0xFFFFFFFF, and by nr 0x3FFFFFFF/0x40000000/0x40000000|n/0x7FFFFFFF/0x80000000/0xFFFFFFFF in full product with argument cells that satisfy the rules; a sweep makes the architecture-jump distance take every value 240..270 on all architectures so both encodings and the switch at 255 are executed. Only foreign/x32 events are judged here.",
    note="Trusted: first two lines of refsem.Decide; partition argument; vendored AUDIT_ARCH values.", ref="DESIGN.md C04"),
  "C05": dict(cat="exploration", tech="exhaustive scope enumeration + port of the kernel verifier, port replayed against real seccomp(2)",
-   text="Every program returned with nil error by scopes S1, S3, S6, the C07 bases and a degenerate scope (all-empty groups, single names, whole tables, 1..1100 condition lists crossing 4096, lists of 1..60 conditions) is raw-encoded and checked by a line-by-line port of bpf_check_classic + check_load_and_stores + seccomp_check_filter and for a closed RET set; the port is validated against the real kernel on every distinct program shape met (thousands per run) and on ~58 rule programs, one per acceptance/rejection rule.",
+   text="Every program returned with nil error by scopes S1, S3, S6, the C07 bases and the C07 defect-injected policies (whatever is accepted must verify) and a degenerate scope (all-empty groups, single names, whole tables, 1..1100 condition lists crossing 4096, lists of 1..60 conditions), on four architectures plus the x32 ABI through the hook is raw-encoded and checked by a line-by-line port of bpf_check_classic + check_load_and_stores + seccomp_check_filter and for a closed RET set; the port is validated against the real kernel on every distinct program shape met (thousands per run) and on ~58 rule programs, one per acceptance/rejection rule.",
    note="Trusted: this kernel's verifier as ground truth for the port; RET K only (fragment check) so the syntactic return set is exact.", ref="DESIGN.md C05, 2.2"),
  "C07": dict(cat="exploration", tech="defect injection at every position of valid base policies + acceptance obligations over exhaustive small scopes",
    text="8 defect kinds in many spellings injected at every name slot / condition slot / ordered pair of 6 base policies on 4 architectures, plus pairs of defects and table-less architectures: each must yield (error, nil program, no panic). Every defect-free policy of the bases, varied valid forms and scopes S1/S3-small must be accepted; policies in neither set (empty condition list) must be compiled faithfully if accepted.",
    note="Trusted: refsem.Valid as the statement's defect list. Arbitrary strings are represented by 10 spellings per slot, not all strings.", ref="DESIGN.md C07"),
  "C08": dict(cat="model_checking", tech="reference model replayed on the real kernel: every policy of a probe scope loaded by the real LoadFilter in a fresh child, every partition cell issued as a real syscall",
-   text="Policies over six harmless probe syscalls (names-only 1-2 groups x 4 actions; single conditions 8 ops x 6 registers x boundary operands; AND/OR lists; two groups; kill_process behind conditions; with/without a >255-instruction allow group) are loaded by the real LoadFilter (flags 0/tsync, NNP on/off) in fresh children; every cell of the argument partition is issued with RawSyscall6 from the loader and a second thread and compared with the reference (EPERM / success / SIGSYS); the sock_fprog captured at the seam must equal the compiled program in length and content.",
+   text="Policies over six harmless probe syscalls (names-only 1-2 groups x 4 actions; single conditions 8 ops x 6 registers x boundary operands; AND/OR lists; two groups; kill_process behind conditions; with/without a >255-instruction allow group) are loaded by the real LoadFilter (flags 0/tsync, NNP on/off, as root and as uid 65534, half of them with a policy value that was assembled in an earlier shape before) in fresh children; every cell of the argument partition is issued with RawSyscall6 from the loader and a second thread and compared with the reference (EPERM / success / SIGSYS); the sock_fprog captured at the seam must equal the compiled program in length and content.",
    note="Trusted: probe syscalls ignore arguments; host architecture only; seam hook sits before the syscall instruction (strace cross-check of flags in C10).", ref="DESIGN.md C08"),
  "C09": dict(cat="model_checking", tech="explicit-state BFS over a Go model of the kernel attach rules, every transition replayed through the real LoadFilter on the real kernel with state comparison",
-   text="BFS (depth 3 quick / 4 thorough, 61 operations: Load on 3 threads x {valid A, valid B, invalid policy, oversize, bad flag} x tsync x nnp, Supported) from privileged and uid-65534 initial states, deduplicated on canonical model state; every transition is replayed (shortest history + op) in a fresh child; after every step per-thread NoNewPrivs/Seccomp/Seccomp_filters and probe answers are compared with the model (conformance) and LoadFilter's result with what the kernel shows (nil <=> in force everywhere requested; failed/invalid loads leave nothing; Supported changes nothing). Thorough adds all histories of length 2 without deduplication.",
+   text="BFS (depth 3 quick / 4 thorough, 85 operations: Load on 3 threads x {valid A, valid B, invalid policy, oversize, bad flag} x tsync x nnp, valid kinds also with the log flag; Supported) from privileged and uid-65534 initial states, deduplicated on canonical model state; every transition is replayed (shortest history + op) in a fresh child; after every step per-thread NoNewPrivs/Seccomp/Seccomp_filters and probe answers are compared with the model (conformance) and LoadFilter's result with what the kernel shows (nil <=> in force everywhere requested; failed/invalid loads leave nothing; Supported changes nothing). Thorough adds all histories of length 2 without deduplication.",
    note="Trusted: kmodel validated on every transition on this kernel (model_kernel_mismatches=0); runtime threads change only through thread-sync.", ref="DESIGN.md C09"),
  "C10": dict(cat="model_checking", tech="enumeration of user-visible thread-phase vectors x flags x loader placement, each executed on the real kernel with per-thread observation after an atomic load-returned flag",
-   text="All phase vectors (spin, nanosleep, blocked read, blocked futex, spawning threads) of N<=2 (quick) / N<=3 (thorough) other threads plus N=8/64, x flags {0,tsync,log,tsync|log} x loader on main/non-main thread; after the load every thread (and three born later) probes and reads its status, /proc/self/task is scanned; all 32 single-bit flag words are compared at the seam and defined ones in strace's decoding of seccomp(2).",
+   text="All phase vectors (spin, nanosleep, blocked read, blocked futex, spawning threads) of N<=2 (quick) / N<=3 (thorough) other threads plus N=8/64, x flags {0,tsync,log,tsync|log} x loader on main/non-main thread, plus scenarios with a preloaded filter, a divergent thread (refusal) and an outer filter answering ENOSYS to seccomp(2); after the load every thread (and three born later) probes and reads its status, /proc/self/task is scanned; all 32 single-bit flag words are compared at the seam and defined ones in strace's decoding of seccomp(2).",
    note="Limit: kernel-internal interleavings of seccomp(2) cannot be scheduled from user space (kernel's guarantee); one execution per vector.", ref="DESIGN.md C10"),
  "C11": dict(cat="model_checking", tech="schedule enumeration at the single prctl/seccomp seam: forced goroutine migration via the seam hook, in fresh privileged/unprivileged children",
-   text="{root, uid 65534} x NoNewPrivs x 4 flag words x loader goroutine placement x {stay, forced migration to another OS thread with/without idle-thread pool}; the migration manoeuvre is first shown to work on an unpinned control goroutine in the same child; observed: LoadFilter result, installing tid and its no_new_privs bit at the seam, per-thread bits/filters before and after.",
+   text="{root, uid 65534} x NoNewPrivs x 4 flag words x loader goroutine placement x {stay, forced migration to another OS thread with/without idle-thread pool}; the migration manoeuvre is first shown to work on an unpinned control goroutine in the same child; observed: LoadFilter result, installing tid and its no_new_privs bit at the seam, per-thread bits/filters before and after; plus all two-load (thorough: three-load) histories over two threads in one process, privileged and unprivileged.",
    note="Limit: placements, not instruction-level preemption, are enumerated; if the loader is wired to its thread migration is impossible and the property holds by construction.", ref="DESIGN.md C11"),
  "C12": dict(cat="exploration", tech="exhaustive finite enumeration of all table entries, aliases and spellings against vendored independent oracles",
    text="Every (number,name)/(name,number) entry of the five tables is checked for mutual inversion and unambiguity and compared with every independent source listing the name (kernel UAPI unistd headers, Go syscall tables, x/sys v0.48 tables); every architecture variable's ID against AUDIT_ARCH_*; every alias in all single-letter case variants; 31 table-less/unknown names must be unsupported; table contents compared across 8 (thorough 32) fresh processes.",
    note="Trusted: oracles.json (generated by oracles/gen.py from this image's headers and Go sources; provenance recorded). A source that does not list a name says nothing about it (50 entries have no oracle).", ref="DESIGN.md C12"),
  "C19": dict(cat="exploration", tech="exhaustive configuration enumeration: all GOOS/GOARCH targets built by the real compiler with overlay-added compile-time constant assertions; AST facts of the stubs",
-   text="All 49 targets of `go tool dist list` are built (thorough: vetted) with an overlay file per package asserting every declared constant (numeric and string) equals the vendored Linux UAPI value; loader/stub file selection from go list; stub file parsed (no imports, no calls, Supported returns literal false); GetInfo(goarch) has a table exactly for 386/amd64/arm/arm64.",
+   text="All 49 targets of `go tool dist list` are built (thorough: vetted) with an overlay file per package asserting every declared constant (numeric and string) equals the vendored Linux UAPI value; loader/stub file selection from go list; stub file parsed (no imports, no calls, Supported returns literal false); GetInfo(goarch) has a table exactly for 386/amd64/arm/arm64; per GOARCH a probe built with runtime.GOARCH substituted through an overlay runs the implicit-architecture path (GetInfo(\"\"), Policy.Assemble) on the host.",
    note="Limit: foreign targets are compiled and constant-evaluated, not executed. ENOSYS expected 89 on linux/mips*, 38 elsewhere.", ref="DESIGN.md C19"),
  "C14": dict(cat="exploration", tech="exhaustive enumeration of case variants and single-edit mutants of all names; round trip of every policy of bounded scopes through three renderings and the real config loader, compared by compiled program",
    text="All 2^letters ASCII case variants of the 15 names parse to the exact constant; all single-edit mutants over a 34-symbol alphabet (incl. NUL and Unicode look-alikes), concatenations and look-alikes are rejected (three-valued under Unicode folding); printed forms parse back. Every policy of S1 (<=2 groups), S3-small and S2 (8 ops x 6 indices x 45 operands x named actions) is rendered by an independent emitter, yaml.Marshal and json.Marshal, read back via ucfg/yaml + Unpack as cmd/sandbox does, and must compile to the identical program.",
    note="Trusted: ucfg/yaml and yaml.v2 as dependencies on the documented path; arbitrary strings are represented by the edit-distance-1 neighbourhood and a look-alike list.", ref="DESIGN.md C14"),
  "C13": dict(cat="model_checking", tech="stateless model checking of the real code: cooperative scheduler + iterative-context-bounding DFS over auto-instrumented sources (go build -overlay); sequential history enumeration; separate free-running -race pass",
-   text="The current library sources are rewritten with a scheduling point before every statement and run under a hand-written cooperative scheduler; for 8 scenarios (copies sharing backing arrays, two architectures, Assemble||Dump, Assemble||GetInfo, Assemble||text conversions, same value twice, three threads) every schedule within the preemption bound (1; 2 for the small shared-copies scenario; thorough: 2 for all two-thread scenarios) is executed; each call must return its solo result and every input policy incl. spare slice capacity must be bit-identical; reported schedules are replayed twice in a fresh process. Plus all 1554 operation histories of length <=4, text forms over 512 calls in 8/32 fresh processes, and a free-running -race pass of the same bodies.",
+   text="The current library sources are rewritten with a scheduling point before every statement and run under a hand-written cooperative scheduler; for 8 scenarios (copies sharing backing arrays, two architectures, Assemble||Dump, Assemble||GetInfo, Assemble||text conversions, same value twice, three threads) every schedule within the preemption bound (1; 2 for the small shared-copies scenario; thorough: 2 for all two-thread scenarios) is executed; each call must return what it returns as the only call of a fresh process and every input policy incl. spare slice capacity must be bit-identical; reported schedules are replayed twice in a fresh process. Lock/RLock/Once.Do are rewritten scheduler-aware (deadlocks reported), a watchdog ends stuck workers. Plus all operation histories of length <=4 over 9 operations, text forms over 512 calls in 8/32 fresh processes, and a free-running -race pass of the same bodies plus 48 fresh race-detector processes whose first library calls are concurrent.",
    note="Limits: statement-granularity points; preemption bound 2; map iteration order covered by repetition only; the -race pass covers unsynchronised accesses the cooperative scheduler cannot see.", ref="DESIGN.md C13"),
  "C15": dict(cat="fault_enumeration", tech="enumeration of every failure point before exec realised through inputs (file prefixes, defect kinds, kernel refusals) on the real sandbox binary with a marker-writing probe target",
    text="The built cmd/sandbox runs a probe target (appends a marker first, then issues every partition-cell probe) on 4 base policy files whole (root/uid 65534/-no-new-privs=false/bad target), every line prefix, every byte prefix inside first and last rule (thorough: all), 13 defect kinds per base, an oversize policy, missing file, directory. The same bytes go through ucfg in the harness: if that fails / policy invalid / kernel must refuse => exit non-zero and no marker; else marker exists and the target's observations equal the reference decisions of the policy the file denotes.",
